@@ -128,7 +128,7 @@ def run(ctx):
         ctx.violation('proof obligation broken: ' + b, {'broken': b}, no_input=True)
     nscen, cap = {'quick': (32, 24), 'thorough': (300, 200)}[ctx.tier]
     rng = ctx.rng('c14')
-    fams = ['ops', 'buffers', 'include', 'eof', 'plain', 'reject']
+    fams = ['ops', 'buffers', 'include', 'eof', 'plain', 'reject', 'deepstack', 'ops']
     jobs = [(flex, src, work, i, rng.getrandbits(48), fams[i % len(fams)], cap) for i in range(nscen)]
     with Pool(16) as pool:
         results = pool.map(_scenario, jobs, chunksize=1)
